@@ -111,6 +111,45 @@ def sumSizes : List Desc → Nat
   | d :: ds => d.size + sumSizes ds
 end
 
+/-- The conditions of `receiveArgument` on ONE record (the conjuncts of `ok`
+that do not recurse): size word = size of the node's OWN type string, a slice
+holds whole elements, the members add up to the node's size word. -/
+def okNode : Desc → Bool
+  | .mk p s ms =>
+    (match typeSize p with | some b => b == s | none => true) &&
+    (match p with
+     | .elem .slice _ _ el => el.bits != 0 && s % el.bits == 0
+     | _ => true) &&
+    (ms.isEmpty || sumSizes ms == s)
+
+mutual
+/-- Every record of a description tree (the record itself first). -/
+def nodes : Desc → List Desc
+  | .mk p s ms => .mk p s ms :: nodesL ms
+def nodesL : List Desc → List Desc
+  | [] => []
+  | d :: ds => nodes d ++ nodesL ds
+end
+
+mutual
+/-- The size a description "determines" when it is looked at ONCE from the
+root after the whole tree was received (the check of the seeded change S119,
+never the code of the repository): members back to back, a leaf counts with
+the size of its type string (its size word only when the string leaves the
+size open). -/
+def descSize : Desc → Nat
+  | .mk p s ms =>
+    match ms with
+    | [] => (match typeSize p with | some b => b | none => s)
+    | m :: rest => descSizes (m :: rest)
+def descSizes : List Desc → Nat
+  | [] => 0
+  | d :: ds => descSize d + descSizes ds
+end
+
+/-- A consistency check applied only at the ROOT: `descSize arg = arg.Type.Bits`. -/
+def okRootOnly (d : Desc) : Bool := descSize d == d.size
+
 end Desc
 
 end Mpc
